@@ -4,11 +4,11 @@ from vf.props import common
 
 LEVEL = 'exploration'
 RULE = ('every shipped recipe (5 files + recipe.dynamic_wi8_afp32()) loaded unchanged x random DAG / template '
-        'single-signature float models admitted by the float interpreter x calibration data; a unit is one '
+        'float models (1-3 signatures, fan-out and cross-signature weight-tying templates included) admitted by the float interpreter x calibration data; a unit is one '
         '(model, recipe) execution; distinct by (graph structure, recipe name); non-trivial iff the model has '
         '>=2 operators and >=1 operator of the README coverage table')
 ASSUMPTIONS = ['only models the float interpreter accepts and whose tensor names are unique are used',
-               'multi-signature calibration is the subject of C10, not C08']
+               'every signature is calibrated in turn, chained through previous_calibration_result']
 
 
 def plan(tier):
@@ -16,7 +16,13 @@ def plan(tier):
 
 
 def run_case(ctx, case, rng):
-  spec = models.model_for_case(rng, multi_sub_p=0.0)
+  r = rng.random()
+  if r < 0.08:
+    spec, _ = models.t_fanout(rng)
+  elif r < 0.14:
+    spec = models.t_shared_buffer_across(rng, int(rng.integers(2, 4)))
+  else:
+    spec = models.model_for_case(rng, multi_sub_p=0.15)
   datasets = common.make_data(rng, spec, classes=common.DATA_MIX[int(rng.integers(len(common.DATA_MIX)))])
   ok, why = common.admit(spec, datasets)
   if not ok:
@@ -25,9 +31,10 @@ def run_case(ctx, case, rng):
   src = models.read(spec.content)
   for c in spec.classes:
     ctx.count('class:' + c)
-  n_ops = len(src.subgraphs[0].operators)
-  n_sup = sum(1 for op in src.subgraphs[0].operators
+  n_ops = sum(len(sg.operators) for sg in src.subgraphs)
+  n_sup = sum(1 for sg in src.subgraphs for op in sg.operators
               if src.operatorCodes[op.opcodeIndex].builtinCode in models.SUPPORTED_CODES)
+  ctx.count('subgraphs:%d' % len(src.subgraphs))
   for name, rec in common.shipped_list():
     run = common.pipeline(spec, datasets, recipe=rec)
     ctx.unit(common.model_key(spec, name), nontrivial=(n_ops >= 2 and n_sup >= 1))
